@@ -202,4 +202,59 @@ func Compile [C07]
 
 func compileWithImportsRec [C07]
   callsite compile requires arg0.ddpModule != nil && arg0.ddpModule.Ast != nil && !arg0.ddpModule.Ast.Faulty
+
+// ================= C18: the published value representation at function boundaries =================
+// which descriptors are "primitive" (passed and returned by value): proved against the seven implementations
+func (*ddpIrPrimitiveType).IsPrimitive [C18]
+  pure
+  ensures result
+func (*ddpIrVoidType).IsPrimitive [C18]
+  pure
+  ensures result
+func (*ddpIrStringType).IsPrimitive [C18]
+  pure
+  ensures !result
+func (*ddpIrAnyType).IsPrimitive [C18]
+  pure
+  ensures !result
+func (*ddpIrListType).IsPrimitive [C18]
+  pure
+  ensures !result
+func (*ddpIrGenericListType).IsPrimitive [C18]
+  pure
+  ensures !result
+func (*ddpIrStructType).IsPrimitive [C18]
+  pure
+  ensures !result
+
+func (ddpIrType).PtrType
+  pure
+  trusted
+
+// class of a DDP type after removing aliases and type definitions (what the representation depends on):
+// 1 Zahl, 2 Kommazahl, 3 Byte, 4 Wahrheitswert, 5 Buchstabe, 6 Text, 7 Variable, 0 anything else
+spec tcls(t ddptypes.Type) int :=
+  ddptypes.tnorm(t) == ddptypes.ZAHL ? 1 : (ddptypes.tnorm(t) == ddptypes.KOMMAZAHL ? 2 : (ddptypes.tnorm(t) == ddptypes.BYTE ? 3 :
+  (ddptypes.tnorm(t) == ddptypes.WAHRHEITSWERT ? 4 : (ddptypes.tnorm(t) == ddptypes.BUCHSTABE ? 5 :
+  (ddptypes.tnorm(t) == ddptypes.TEXT ? 6 : (ddptypes.tnorm(t) == ddptypes.VARIABLE ? 7 : 0))))))
+spec isListT(t ddptypes.Type) bool := is[ddptypes.ListType](ddptypes.tnorm(t))
+spec elemT(t ddptypes.Type) ddptypes.Type := ddptypes.tnorm(t).(ddptypes.ListType).ElementType
+spec isStructT(t ddptypes.Type) bool := is[*ddptypes.StructType](ddptypes.tnorm(t))
+
+// the descriptor of every DDP type, by class
+func (*compiler).toIrType [C18]
+  requires c != nil
+  ensures !isListT(ddpType) && 1 <= tcls(ddpType) && tcls(ddpType) <= 5 ==> result == descr(c, tcls(ddpType))
+  ensures !isListT(ddpType) && tcls(ddpType) == 6 ==> result == box(c.ddpstring)
+  ensures !isListT(ddpType) && tcls(ddpType) == 7 ==> result == box(c.ddpany)
+  ensures isListT(ddpType) && tcls(elemT(ddpType)) == 1 ==> result == box(c.ddpintlist)
+  ensures isListT(ddpType) && tcls(elemT(ddpType)) == 2 ==> result == box(c.ddpfloatlist)
+  ensures isListT(ddpType) && tcls(elemT(ddpType)) == 3 ==> result == box(c.ddpbytelist)
+  ensures isListT(ddpType) && tcls(elemT(ddpType)) == 4 ==> result == box(c.ddpboollist)
+  ensures isListT(ddpType) && tcls(elemT(ddpType)) == 5 ==> result == box(c.ddpcharlist)
+  ensures isListT(ddpType) && tcls(elemT(ddpType)) == 6 ==> result == box(c.ddpstringlist)
+  ensures isListT(ddpType) && tcls(elemT(ddpType)) == 7 ==> result == box(c.ddpanylist)
+  // by value exactly for the five primitive classes (and "nothing")
+  ensures !isListT(ddpType) && 1 <= tcls(ddpType) && tcls(ddpType) <= 5 ==> result.IsPrimitive()
+  ensures isListT(ddpType) || tcls(ddpType) == 6 || tcls(ddpType) == 7 || isStructT(ddpType) ==> !result.IsPrimitive()
 @*/
